@@ -230,7 +230,7 @@ def _bmoc_h(pid, mode, op, na, nb, dma, dmb, tiers, timeout=1800, mem_gb=12, unw
     return H(name, 'k_bmoc_op(%d, %d, %d, %d, %d, %d);' % (op, mode, na, nb, dma, dmb), tiers=tiers, timeout=timeout, mem_gb=mem_gb,
              unwind=unwind, unwindset=_bmoc_unwindset(na, nb, dm, op),
              stubs=_bmoc_stubs('verif_' + pid.lower()) + (_bmoc_cut_pack('verif_' + pid.lower()) if op >= 2 else []),
-             inputs=_ops_inputs('a') + _ops_inputs('b') + [('c', 'u64')], replay='bmoc_op',
+             inputs=_ops_inputs('a') + _ops_inputs('b') + [('c', 'u64')], replay='bmoc_op', replay_search=('bmoc_op_search' if na + nb <= 3 else None),
              replay_const={'op': op, 'mode': mode, 'na': na, 'nb': nb, 'a_dm': dma, 'b_dm': dmb},
              covers=['operands exist'],
              domain='%s: operands of exactly %d and %d entries (symbolic depth/hash/flag, valid%s), depth_max %d and %d, symbolic probe cell'
@@ -244,7 +244,7 @@ def _pack_h(pid, n, dm, tiers, timeout=1800, mem_gb=12):
           B + 'BMOCBuilderUnsafe::pack#0': dm + 2, B + 'BMOCBuilderUnsafe::pack#1': n + 1, B + 'BMOCBuilderUnsafe::pack#2': n + 1}
     return H('%s_pack_%d_dm%d' % (pid.lower(), n, dm), 'k_pack(%d, %d);' % (n, dm), tiers=tiers, timeout=timeout, mem_gb=mem_gb,
              unwind=3, unwindset=us, stubs=_bmoc_stubs('verif_' + pid.lower()),
-             inputs=_ops_inputs('a') + [('c', 'u64')], replay='bmoc_pack', replay_const={'na': n, 'a_dm': dm},
+             inputs=_ops_inputs('a') + [('c', 'u64')], replay='bmoc_pack', replay_search=('bmoc_pack_search' if n <= 3 else None), replay_const={'na': n, 'a_dm': dm},
              covers=(['sequence with four full siblings'] if n >= 4 else []),
              domain='pack: every valid sequence of exactly %d entries (symbolic depth/hash/flag), depth_max %d, symbolic probe cell' % (n, dm))
 
@@ -272,6 +272,7 @@ def _bmoc_family(pid, mode):
         L.append(_bmoc_h(pid, mode, op, na, nb, dma, dmb, tiers, timeout=to, mem_gb=mem))
     # or / xor end with pack(): the pack lemma (cut) is part of the claim
     L.append(_pack_h(pid, 4, 1, Q, timeout=1800))
+    L.append(_pack_d_h(pid, 4, 2, 1, Q))
     L.append(_pack_h(pid, 4, 2, T, timeout=3600, mem_gb=16))
     return L
 
@@ -283,9 +284,18 @@ def _pack_h(pid, n, dm, tiers, timeout=1800, mem_gb=8):
           B + 'BMOCBuilderUnsafe::pack#0': dm + 2, B + 'BMOCBuilderUnsafe::pack#1': n + 1, B + 'BMOCBuilderUnsafe::pack#2': n + 1}
     return H('%s_pack_%d_dm%d' % (pid.lower(), n, dm), 'k_pack(%d, %d);' % (n, dm), tiers=tiers, timeout=timeout, mem_gb=mem_gb,
              unwind=3, unwindset=us, stubs=_bmoc_stubs('verif_' + pid.lower()),
-             inputs=_ops_inputs('a') + [('c', 'u64')], replay='bmoc_pack', replay_const={'na': n, 'a_dm': dm},
+             inputs=_ops_inputs('a') + [('c', 'u64')], replay='bmoc_pack', replay_search=('bmoc_pack_search' if n <= 3 else None), replay_const={'na': n, 'a_dm': dm},
              covers=(['sequence with four full siblings'] if n >= 4 else []),
              domain='pack: every valid sequence of exactly %d entries (symbolic depth/hash/flag), depth_max %d, symbolic probe cell' % (n, dm))
+
+
+def _pack_d_h(pid, n, dm, dfix, tiers, timeout=2400, mem_gb=20):
+    h = _pack_h(pid, n, dm, tiers, timeout=timeout, mem_gb=mem_gb)
+    h['name'] = '%s_pack_%d_dm%d_d%d' % (pid.lower(), n, dm, dfix)
+    h['call'] = 'k_pack_d(%d, %d, %d);' % (n, dm, dfix)
+    h['covers'] = ['sequence with four full siblings', 'partial first sibling followed by three full siblings']
+    h['domain'] = 'pack: every valid sequence of exactly %d entries all of depth %d (symbolic hash/flag), depth_max %d, symbolic probe cell' % (n, dfix, dm)
+    return h
 
 
 def _lower_h(pid, n, dm, nd, packing, tiers, timeout=1800, mem_gb=8):
@@ -398,7 +408,7 @@ PROPS['C09'] = dict(
 )
 
 _c15 = [
-    _pack_h('C15', 4, 1, Q, timeout=1500), _pack_h('C15', 2, 2, Q, timeout=900),
+    _pack_h('C15', 4, 1, Q, timeout=1500), _pack_h('C15', 2, 2, Q, timeout=900), _pack_d_h('C15', 4, 2, 1, Q),
     _pack_h('C15', 3, 2, T, timeout=2400), _pack_h('C15', 4, 2, T, timeout=3600, mem_gb=16),
     _lower_h('C15', 2, 2, 1, False, Q), _lower_h('C15', 2, 1, 0, True, Q),
     _lower_h('C15', 2, 2, 0, False, T), _lower_h('C15', 3, 2, 1, False, T), _lower_h('C15', 2, 2, 1, True, T),
@@ -530,11 +540,15 @@ for reg, rn in ((0, 'npc'), (1, 'eqr'), (2, 'spc')):
 for reg, rn in ((0, 'npc'), (1, 'eqr'), (2, 'spc')):
     for neg in (0, 1):
         for cls in ((255,) if reg != 1 else (0, 1, 2)):
-            _c01.append(H('c01_b_%s_%s%s' % (rn, 'neg' if neg else 'pos', '' if cls == 255 else '_c%d' % cls),
-                          'k_c01_b(%d, %s, %d);' % (reg, 'true' if neg else 'false', cls), tiers=Q, timeout=2400, mem_gb=6, unwind=3,
-                          stubs=_LIBM, inputs=[('lon', 'f64'), ('lat', 'f64')], replay='c01_all_depths', covers=['second turn'] + (['class non empty'] if reg == 1 else []),
-                          domain='coarse placement on the real Layer::d0h_lh_in_d0c: lon %s, %s region%s: the reference projection lies within 2^-20 of the returned base cell'
-                                 % ('< 0' if neg else '>= 0', rn, '' if cls == 255 else ', positions mapped to a %s base cell' % ['north polar', 'south polar', 'equatorial'][cls])))
+            for ft in ((0,) if reg != 1 else (1, 0)):
+                # equatorial region: relating the quadrant comparisons of the code to the triangle containment of the oracle takes 15+ min per class
+                # even for the first turn only => thorough tier (the quick tier covers the equatorial region end to end at depths 0..3 for range, and through lemma R)
+                _c01.append(H('c01_b_%s_%s%s%s' % (rn, 'neg' if neg else 'pos', '' if cls == 255 else '_c%d' % cls, '_t0' if ft else ''),
+                              'k_c01_b(%d, %s, %d, %s);' % (reg, 'true' if neg else 'false', cls, 'true' if ft else 'false'),
+                              tiers=(T if reg == 1 else Q), timeout=3600, mem_gb=6, unwind=3,
+                              stubs=_LIBM, inputs=[('lon', 'f64'), ('lat', 'f64')], replay='c01_all_depths', covers=['second turn'] + (['class non empty'] if reg == 1 else []),
+                              domain='coarse placement on the real Layer::d0h_lh_in_d0c: lon %s%s, %s region%s: the reference projection lies within 2^-20 of the returned base cell'
+                                     % ('< 0' if neg else '>= 0', ' (first turn)' if ft else '', rn, '' if cls == 255 else ', positions mapped to a %s base cell' % ['north polar', 'south polar', 'equatorial'][cls])))
 for (lo, hi) in ((0, 0), (1, 8), (9, 16), (17, 29)):
     _c01.append(H('c01_s_d%d_%d' % (lo, hi), 'k_c01_s(%d, %d);' % (lo, hi), tiers=Q, timeout=1800, mem_gb=8, unwind=max(4, hi + 1),
                   stubs=[(a, b % 'c01') for a, b in _CUT], inputs=[('depth', 'u8'), ('d0h', 'u8'), ('l', 'f64'), ('h', 'f64')], replay='c01_pullback',
@@ -627,6 +641,10 @@ for (ds, lv, tiers) in ((0, 1, Q), (1, 1, Q), (0, 2, T), (3, 2, T)):
                   inputs=None, replay=None, covers=['a fully covered cell', 'a partially covered cell at the target depth'],
                   domain='real cone_coverage_approx_recur from one symbolic root cell of depth %d down %d level(s): arbitrary thresholds min<=max per level, '
                          'arbitrary distance per visited cell, symbolic probe cell' % (ds, lv)))
+_c06.append(_pack_d_h('C06', 4, 2, 1, Q))
+_c06[-1]['mod'] = 'verif_c06b'
+_c06[-1]['stubs'] = [(a, b.replace('verif_c06::', 'verif_c06b::')) for a, b in _c06[-1]['stubs']]
+_c06[-1]['unwindset'] = dict((k.replace('verif_c06::', 'verif_c06b::'), v) for k, v in _c06[-1]['unwindset'].items())
 _c06.append(_pack_h('C06', 4, 1, Q, timeout=1500))
 _c06[-1]['mod'] = 'verif_c06b'
 _c06[-1]['stubs'] = [(a, b.replace('verif_c06::', 'verif_c06b::')) for a, b in _c06[-1]['stubs']]
@@ -692,15 +710,17 @@ def _c03_us(d):
 _c03 = []
 for _d in range(30):
     tq = Q if _d in (0, 1, 2, 29) else T
-    _c03.append(H('c03_cell_d%d' % _d, 'k_c03_cell(%d);' % _d, tiers=tq, timeout=2400, mem_gb=12, unwind=4, unwindset=_c03_us(_d), stubs=_PLANE_CUT_N('verif_c03'),
-                  inputs=[('h', 'u64'), ('dxk', 'u32'), ('dyk', 'u32')], replay='c03_cell', replay_const={'depth': _d}, covers=['cell at the north pole'],
-                  domain='depth %d: every cell, offsets k/1024 with k symbolic in 1..=1023 (plane cut)' % _d))
-    _c03.append(H('c03_path_d%d' % _d, 'k_c03_path(%d);' % _d, tiers=Q if _d in (0, 2, 29) else T, timeout=2400, mem_gb=12, unwind=4, unwindset=_c03_us(_d),
+    for part, pn in ((0, 'centre'), (1, 'offset'), (2, 'vertices')):
+        _c03.append(H('c03_%s_d%d' % (pn, _d), 'k_c03_cell(%d, %d);' % (_d, part), tiers=tq, timeout=2400, mem_gb=8, unwind=4, unwindset=_c03_us(_d), stubs=_PLANE_CUT_N('verif_c03'),
+                      inputs=[('h', 'u64'), ('dxk', 'u32'), ('dyk', 'u32')], replay='c03_cell', replay_const={'depth': _d},
+                      covers=['cell at the north pole', 'west half of base cell 4 (negative x before wrapping)'] if _d > 0 else ['cell at the north pole'],
+                      domain='depth %d: every cell%s (plane cut): %s' % (_d, ', offsets k/1024 with k symbolic in 1..=1023' if part == 1 else '', pn)))
+    _c03.append(H('c03_path_d%d' % _d, 'k_c03_path(%d);' % _d, tiers=Q if _d in (0, 2, 29) else T, timeout=2400, mem_gb=10, unwind=4, unwindset=_c03_us(_d),
                   stubs=_PLANE_CUT_N('verif_c03'), inputs=[('h', 'u64'), ('t', 'usize'), ('cw', 'bool'), ('sk', 'u8')], replay='c03_cell',
                   replay_const={'depth': _d, 'dxk': 512, 'dyk': 512}, covers=['last grid point', 'first path point, clockwise'],
                   domain='depth %d: every cell, every point of the 12-point edge path (both directions, 4 starting vertices) and of the 3x3 grid' % _d))
     for band, bn in ((0, 'npc'), (1, 'eqr'), (2, 'spc')):
-        _c03.append(H('c03_image_%s_d%d' % (bn, _d), 'k_c03_image(%d, %d);' % (_d, band), tiers=Q if _d in (0, 1, 2) else T, timeout=2400, mem_gb=12, unwind=4,
+        _c03.append(H('c03_image_%s_d%d' % (bn, _d), 'k_c03_image(%d, %d);' % (_d, band), tiers=Q if _d in (0, 1, 2) else T, timeout=2400, mem_gb=8, unwind=4,
                       unwindset=_c03_us(_d), stubs=_PLANE_CUT_N('verif_c03'), inputs=[('x', 'f64'), ('y', 'f64')], replay='c03_pullback', replay_const={'depth': _d},
                       covers=['x = 4 (seam or base cell corner line)', 'x = 8'],
                       domain='depth %d: every double point of the HEALPix image (x in [0, 8]) with y in the %s band' % (_d, bn)))
